@@ -272,6 +272,7 @@ type c15Cfg struct {
 	parents []string // besides root
 	podOn   string   // "" or the quota name a pod is labelled with
 	gateOn  bool
+	parentPods bool // the alpha gate SupportParentQuotaSubmitPod is on (parent quotas may hold pods): no clause of the tree is waived by it (seed C15-8)
 	depth   int
 	share   float64 // cap on the part's slice of the unit's time budget (1 = all that is left)
 	rich    bool    // include the content-carrying create profiles
@@ -996,6 +997,7 @@ func c15Configs(env *mc.Env) []c15Cfg {
 			{part: "hist-force", names: abc, parents: []string{"a", "b", "c", "missing"}, depth: 7, share: 0.25, force: true, rich: true},
 			{part: "hist-pod-on-a", names: ab, parents: []string{"a", "b", "missing"}, podOn: "a", depth: 8, share: 0.2, rich: true},
 			{part: "hist-gate-updatekey", names: abc, parents: []string{"a", "b", "c", "missing"}, gateOn: true, depth: 7, share: 0.3, rich: true},
+			{part: "hist-gate-parentpods", names: ab, parents: []string{"a", "b", "missing"}, podOn: "a", parentPods: true, depth: 7, share: 0.35, rich: true},
 			{part: "hist-3names", names: abc, parents: []string{"a", "b", "c", "missing"}, depth: 7, share: 1, rich: true},
 		}
 	}
@@ -1004,6 +1006,7 @@ func c15Configs(env *mc.Env) []c15Cfg {
 		{part: "hist-force", names: abc, parents: []string{"a", "b", "c", "missing"}, depth: 5, share: 0.35, force: true},
 		{part: "hist-pod-on-a", names: ab, parents: []string{"a", "b", "missing"}, podOn: "a", depth: 5, share: 0.3, rich: true},
 		{part: "hist-gate-updatekey", names: ab, parents: []string{"a", "b", "missing"}, gateOn: true, depth: 5, share: 0.25, rich: true},
+		{part: "hist-gate-parentpods", names: ab, parents: []string{"a", "b", "missing"}, podOn: "a", parentPods: true, depth: 5, share: 0.3, rich: true},
 		{part: "hist-3names", names: abc, parents: []string{"a", "b", "c", "missing"}, depth: 5, share: 1, rich: true},
 	}
 }
@@ -1037,6 +1040,9 @@ func TestVerifC15Hist(t *testing.T) {
 			continue
 		}
 		if err := utilfeature.DefaultMutableFeatureGate.Set(fmt.Sprintf("%s=%v", koordfeatures.ElasticQuotaEnableUpdateResourceKey, cfg.gateOn)); err != nil {
+			t.Fatal(err)
+		}
+		if err := utilfeature.DefaultMutableFeatureGate.Set(fmt.Sprintf("%s=%v", koordfeatures.SupportParentQuotaSubmitPod, cfg.parentPods)); err != nil {
 			t.Fatal(err)
 		}
 		if utilfeature.DefaultFeatureGate.Enabled(koordfeatures.ElasticQuotaGuaranteeUsage) {
